@@ -1430,6 +1430,11 @@ impl<'a, 'b> Gen<'a, 'b> {
         let saved = self.cfg.clone();
         self.cfg.order_limit = false;
         self.cfg.derived = false;
+        if !self.cfg.count_star_in_subquery {
+            // an aggregate over a constant (count(0)) is, like count(*), the same plan node in
+            // every query block and gets conflated with the outer block's
+            self.cfg.const_agg_arg = false;
+        }
         let mut q = self.query(depth);
         self.cfg = saved;
         if !self.cfg.count_star_in_subquery {
